@@ -148,3 +148,50 @@ func (e *Engine) methodOf(sel *types.Selection, recvT types.Type, env TEnv) (*ss
 	}
 	return fn, menv
 }
+
+// applyGhostSets performs the contract's ghost assignments at the function's exit. All right-hand sides see the
+// ghost state as it was before the first assignment (simultaneous assignment); old(...) is the entry state.
+func (e *Engine) applyGhostSets(st *State, c *Contract, se *SpecEnv) {
+	if len(c.GhostSets) == 0 {
+		return
+	}
+	before := st.Clone()
+	for _, gs := range c.GhostSets {
+		gv, ok := e.cs.GhostVars[gs.Name]
+		if !ok {
+			panic(unsupported("ghostset %s: unknown ghost variable", gs.Name))
+		}
+		bse := *se
+		bse.st = before
+		cur := e.ghostArray(before, gv, &bse)
+		elemSort := func(arr Sort) Sort {
+			// (Array Int X) -> X
+			str := strings.TrimSuffix(strings.TrimPrefix(string(arr), "(Array Int "), ")")
+			return Sort(str)
+		}
+		mk := func(rowSort Sort) Term {
+			return e.ctx.DefArray("gset_"+gs.Name, SInt, elemSort(rowSort), func(k Term) Term {
+				inner := bse.with(gs.Var, mkInt(k))
+				v := e.evalSpec(gs.Body, inner)
+				if len(v.L) != 1 {
+					panic(unsupported("ghostset %s: the body must be a single scalar", gs.Name))
+				}
+				return v.L[0]
+			})
+		}
+		var nw Term
+		if gs.Row != nil {
+			if gv.Dims != 2 {
+				panic(unsupported("ghostset %s[row]: not a two-index ghost variable", gs.Name))
+			}
+			row := e.evalSpec(gs.Row, &bse).L[0]
+			nw = Store(cur.L[0], row, mk(elemSort(cur.L[0].Sort)))
+		} else {
+			if gv.Dims != 1 {
+				panic(unsupported("ghostset %s: not a one-index ghost variable", gs.Name))
+			}
+			nw = mk(cur.L[0].Sort)
+		}
+		st.ghost[gs.Name] = Val{T: nil, L: []Term{nw}, G: gv}
+	}
+}
